@@ -330,3 +330,39 @@ def loads_for(scn):
         _LOADS.clear()
     _LOADS[key] = base
     return base
+
+
+OUTCOMES = ["inside", "tiny", "huge", "edge_small", "edge_large"]
+
+
+def stratified(ctx, n_total, methods=None, outcomes=None, months=None, label=""):
+    """Scenario list covering method x outcome class x continue flag evenly (Hypothesis fills in everything else).
+    Every shard computes the same list and takes its slice."""
+    import itertools
+
+    methods = methods or METHODS
+    outcomes = outcomes or OUTCOMES
+    combos = list(itertools.product(methods, outcomes, [False, True]))
+    per = max(1, -(-n_total // len(combos)))
+    buckets = []
+    for m, oc, cont in combos:
+        got = ctx.collect(scenario(methods=[m], outcome=oc, months=months), per + 1, label=f"{label}/{m}/{oc}/{cont}")
+        got = got[1:per + 1] or got[:1]  # drop Hypothesis' all-minimal first example when there are others
+        for c in got:
+            c["continue"] = cont
+        buckets.append(got)
+    out = []
+    for i in range(per):
+        for b in buckets:
+            if i < len(b):
+                out.append(b[i])
+    # spread the combinations over the list so that any prefix is balanced
+    step = 7
+    order = sorted(range(len(out)), key=lambda i: ((i * step) % len(out), i)) if len(out) > step else list(range(len(out)))
+    out = [out[i] for i in order]
+    return out[:n_total]
+
+
+def run_stratified(ctx, n_total, **kw):
+    cases = stratified(ctx, n_total, **kw)
+    ctx.each(cases[ctx.shard::ctx.nshards])
